@@ -896,6 +896,9 @@ def _expand_when_stmt_element(
             group_match_elements[case_idx].append([])
             group_assignment_elements[case_idx].append([])
             for group_element in and_group["elements"]:
+                # The normalization to DNF can share the same spec between several
+                # and-groups, so we must not modify the original one
+                group_element = copy.deepcopy(group_element)
                 match_element = copy.deepcopy(group_element)
                 ref_uid = None
                 temp_ref_uid: str
